@@ -249,6 +249,7 @@ func c28Absolute(r *core.Run, p *core.Prog) {
 	where := p.Rel(f.Decl.Pos())
 	var relPos, intPos, loopPos token.Pos
 	okLoop, okLists, okLoc := false, false, false
+	triedAll, decidedAll := false, false
 	core.Walk(f.Decl.Body, false, func(x ast.Node) bool {
 		switch s := x.(type) {
 		case *ast.CallExpr:
@@ -284,9 +285,30 @@ func c28Absolute(r *core.Run, p *core.Prog) {
 				return true
 			})
 			okLoop = parse && ret
+			// every layout is tried: no iteration may go on to the next layout without having attempted the parse
+			// (a pre-filter on the shape of the input makes some well-formed inputs of that layout unparsable)
+			g := core.GraphOf(f)
+			var pcall *ast.CallExpr
+			core.Walk(s.Body, false, func(y ast.Node) bool {
+				if c, ok := y.(*ast.CallExpr); ok && core.CallName(info, c) == "time.ParseInLocation" {
+					pcall = c
+				}
+				return true
+			})
+			if pcall != nil {
+				hn, pn := g.LoopHead(s), g.NodeOf(pcall)
+				if hn >= 0 && pn >= 0 {
+					triedAll, decidedAll = !g.ReachStrict(hn, hn, map[int]bool{pn: true}), true
+				}
+			}
 		}
 		return true
 	})
+	if decidedAll {
+		r.Check(rule, "ParseTimeArgument:every-layout-is-tried", where, triedAll, "an iteration of the layout loop can move on to the next layout without calling ParseInLocation: inputs that the skipped layout denotes are rejected or read by a later layout")
+	} else {
+		r.Undecided(rule, "ParseTimeArgument:every-layout-is-tried", where, "layout loop (range over the layouts with a ParseInLocation call) not recognised")
+	}
 	r.Check(rule, "ParseTimeArgument:order-relative-integer-layouts", where, relPos.IsValid() && intPos.IsValid() && loopPos.IsValid() && relPos < intPos && intPos < loopPos, "relative syntax first, then integer Unix time, then the layout lists")
 	r.Check(rule, "ParseTimeArgument:first-matching-layout-wins", where, okLoop, "each layout is tried with ParseInLocation and the first success returns its Unix time")
 	r.Check(rule, "ParseTimeArgument:all-layout-lists-in-order", where, okLists, "the default layouts must be tried before the custom ones, and both lists must be tried")
